@@ -2,3 +2,5 @@ import WowVerif.Props.C13
 #print axioms Wv.M2.relocate_reads
 #print axioms Wv.M2.relocate_alias
 #print axioms Wv.M2.emit_bounded
+#print axioms Wv.M2.anim_section_roundtrip
+#print axioms Wv.M2.anim_file_roundtrip
